@@ -85,6 +85,10 @@ def item_of(shape, i):
         return (i + 1) // 2
     if shape == "pair":
         return [i, i + 1]
+    if shape == "zero":
+        return 0
+    if shape == "alt":
+        return 1 if i % 2 else -1
     raise ValueError(shape)
 
 
@@ -135,7 +139,7 @@ def program_of(ids):
 
 
 def all_shapes_for(ids):
-    return [s for s in ("nat", "dup", "pair") if fits(ids, s)]
+    return [s for s in ("nat", "dup", "pair", "zero", "alt") if fits(ids, s)]
 
 
 def enumerate_comps(k):
